@@ -529,7 +529,7 @@ def run(ctx):
         cfg = CFGS[w]
         exe = build_harness(ctx, cfg, info[w]["cfiles"], w)
         exes[w] = exe
-        ops = corpus() + deep_ops(info[w], ctx.rng, ctx.tier, w) + math_ops(ctx.rng, ctx.tier, w) + hl_ops() + core_ops() + trunc_ops() + blob_ops(ctx.rng, ctx.tier)
+        ops = corpus() + deep_ops(info[w], ctx.rng, ctx.tier, w) + math_ops(ctx.rng, ctx.tier, w) + hl_ops() + core_ops() + (trunc_ops() if (w == "W64" or ctx.tier == "thorough") else trunc_ops()[::3]) + blob_ops(ctx.rng, ctx.tier)
         if not driver_ok:
             # the generated definitions do not compile: the C side still runs (oracle), no comparison
             c_out, c_err, rc = ctx.run_lines(exe, ops, env={"C07_HW": "1"})
